@@ -1,7 +1,8 @@
 /-
   Real-analysis input for the Matérn kernels of C03 (no model imports):
   the Cauchy–Schlömilch integral  ∫_0^∞ exp(−x² − b²/x²) dx = (√π/2) e^{−2b}  (b ≥ 0)
-  through Glasser's substitution u = x − b/x, and (below) its even moments.
+  through Glasser's substitution u = x − b/x, its second and fourth moments by integration by parts,
+  and the substitution s = 1/(4x²) that turns them into the usual inverse-gamma rate mixtures.
 -/
 import Mathlib.MeasureTheory.Function.JacobianOneDim
 import Mathlib.Analysis.SpecialFunctions.Gaussian.GaussianIntegral
@@ -359,5 +360,103 @@ theorem integral_pow_four_mul_E {b : ℝ} (hb : 0 ≤ b) :
     integral_add i1 i3, integral_sub i2 i4, integral_const_mul, integral_const_mul,
     integral_const_mul, integral_sq_mul_E hb, integral_E hb] at hz
   linarith
+
+/-! ### substitution s = 1/(4x²) -/
+
+theorem rate_image : (fun x : ℝ => 1 / (4 * x ^ 2)) '' Ioi 0 = Ioi 0 := by
+  ext y
+  constructor
+  · rintro ⟨x, hx, rfl⟩
+    have : (0 : ℝ) < x := hx
+    show (0 : ℝ) < 1 / (4 * x ^ 2)
+    positivity
+  · intro hy
+    have hy0 : (0 : ℝ) < y := hy
+    have hsp : 0 < sqrt y := Real.sqrt_pos.mpr hy0
+    refine ⟨1 / (2 * sqrt y), (by positivity : (0 : ℝ) < 1 / (2 * sqrt y)), ?_⟩
+    show 1 / (4 * (1 / (2 * sqrt y)) ^ 2) = y
+    have hs : sqrt y ^ 2 = y := Real.sq_sqrt hy0.le
+    have hs0 : sqrt y ≠ 0 := (Real.sqrt_pos.mpr hy0).ne'
+    field_simp
+    linarith
+
+theorem rate_hasDeriv (x : ℝ) (hx : x ∈ Ioi (0 : ℝ)) :
+    HasDerivWithinAt (fun x : ℝ => 1 / (4 * x ^ 2)) (-(1 / (2 * x ^ 3))) (Ioi 0) x := by
+  have hx0 : x ≠ 0 := ne_of_gt hx
+  have h0 : HasDerivAt (fun x : ℝ => x ^ 2) (2 * x) x := by
+    simpa using hasDerivAt_pow 2 x
+  have h1 : HasDerivAt (fun x : ℝ => 4 * x ^ 2) (4 * (2 * x)) x := h0.const_mul 4
+  have h2 : HasDerivAt (fun x : ℝ => 1 / (4 * x ^ 2)) ((0 * (4 * x ^ 2) - 1 * (4 * (2 * x))) / (4 * x ^ 2) ^ 2) x :=
+    (hasDerivAt_const x (1 : ℝ)).fun_div h1 (by positivity)
+  have e : (0 * (4 * x ^ 2) - 1 * (4 * (2 * x))) / (4 * x ^ 2) ^ 2 = -(1 / (2 * x ^ 3)) := by
+    field_simp
+    ring
+  rw [e] at h2
+  exact h2.hasDerivWithinAt
+
+theorem rate_injOn : InjOn (fun x : ℝ => 1 / (4 * x ^ 2)) (Ioi 0) := by
+  intro x hx y hy h
+  have hx0 : (0 : ℝ) < x := hx
+  have hy0 : (0 : ℝ) < y := hy
+  simp only at h
+  have h2 : x ^ 2 = y ^ 2 := by
+    field_simp at h
+    linarith
+  exact (sq_eq_sq₀ hx0.le hy0.le).mp h2
+
+theorem integral_comp_rate (W : ℝ → ℝ) :
+    ∫ s in Ioi 0, W s = ∫ x in Ioi 0, 1 / (2 * x ^ 3) * W (1 / (4 * x ^ 2)) := by
+  have h := integral_image_eq_integral_abs_deriv_smul measurableSet_Ioi rate_hasDeriv rate_injOn W
+  rw [rate_image] at h
+  rw [h]
+  refine setIntegral_congr_fun measurableSet_Ioi fun x hx => ?_
+  have hx0 : (0 : ℝ) < x := hx
+  simp only [smul_eq_mul]
+  rw [abs_neg, abs_of_nonneg (by positivity)]
+
+theorem integrableOn_comp_rate (W : ℝ → ℝ) :
+    IntegrableOn W (Ioi 0) ↔ IntegrableOn (fun x => 1 / (2 * x ^ 3) * W (1 / (4 * x ^ 2))) (Ioi 0) := by
+  have h := integrableOn_image_iff_integrableOn_abs_deriv_smul measurableSet_Ioi rate_hasDeriv
+    rate_injOn W
+  rw [rate_image] at h
+  rw [h]
+  refine integrableOn_congr_fun (fun x hx => ?_) measurableSet_Ioi
+  have hx0 : (0 : ℝ) < x := hx
+  simp only [smul_eq_mul]
+  rw [abs_neg, abs_of_nonneg (by positivity)]
+
+/-- `(1/(4x²))^(−p/2) = (2x)^p` -/
+theorem rate_rpow {x : ℝ} (hx : 0 < x) (p : ℕ) :
+    (1 / (4 * x ^ 2)) ^ (-((p : ℝ) / 2)) = (2 * x) ^ p := by
+  have hy : 0 < 2 * x := by positivity
+  have e : 1 / (4 * x ^ 2) = ((2 * x) ^ (2 : ℝ))⁻¹ := by
+    rw [show (2 : ℝ) = ((2 : ℕ) : ℝ) by norm_num, Real.rpow_natCast]
+    rw [one_div]; congr 1; ring
+  rw [e, Real.inv_rpow (by positivity), Real.rpow_neg (by positivity), inv_inv, ← Real.rpow_mul hy.le,
+    show (2 : ℝ) * ((p : ℝ) / 2) = (p : ℝ) by ring, Real.rpow_natCast]
+
+/-- inverse-gamma type weight `a · s^(−p/2) · exp(−1/(4s))` -/
+noncomputable def wRate (a : ℝ) (p : ℕ) (s : ℝ) : ℝ := a * s ^ (-((p : ℝ) / 2)) * exp (-(1 / (4 * s)))
+
+theorem wRate_nonneg {a : ℝ} (ha : 0 ≤ a) (p : ℕ) {s : ℝ} (hs : 0 < s) : 0 ≤ wRate a p s := by
+  unfold wRate
+  have := Real.rpow_pos_of_pos hs (-((p : ℝ) / 2))
+  positivity
+
+/-- after `s = 1/(4x²)` the rate-form integrand becomes the `x`-form integrand -/
+theorem rate_integrand (a : ℝ) (k : ℕ) (d : ℝ) {x : ℝ} (hx : 0 < x) :
+    1 / (2 * x ^ 3) * (wRate a (2 * k + 3) (1 / (4 * x ^ 2)) * exp (-(1 / (4 * x ^ 2) * d)))
+      = a * 4 ^ (k + 1) * x ^ (2 * k) * exp (-x ^ 2) * exp (-(1 / (4 * x ^ 2) * d)) := by
+  have hx0 : x ≠ 0 := ne_of_gt hx
+  unfold wRate
+  rw [rate_rpow hx]
+  have e1 : 1 / (4 * (1 / (4 * x ^ 2))) = x ^ 2 := by field_simp
+  rw [e1]
+  have e2 : (2 * x) ^ (2 * k + 3) = 2 * x ^ 3 * (4 ^ (k + 1) * x ^ (2 * k)) := by
+    rw [mul_pow, pow_add, pow_add, pow_succ (4 : ℝ), pow_mul]
+    norm_num
+    ring
+  rw [e2]
+  field_simp
 
 end MaternInt
